@@ -121,14 +121,7 @@ def degenerate_axis(d):
     return len({p.real for p in pts}) == 1 or len({p.imag for p in pts}) == 1
 
 
-def arc_branch(d1, d2):
-    """which branch of Arc.intersect serves the pair"""
-    a, o = (d1, d2) if d1[0] == 'A' else (d2, d1)
-    if o[0] == 'A':
-        return 'circle-circle' if ic.is_circ_unrot(a) and ic.is_circ_unrot(o) else 'arc-arc-subdivision'
-    if o[0] == 'L' and a[3] == 0:
-        return 'arc-line-algebraic'
-    return 'arc-u1transform'
+arc_branch = ic.arc_branch
 
 
 def miss_key(d1, d2, what):
